@@ -147,6 +147,9 @@ pub enum RequestCreationError {
 
     /// Error while reading data from the socket during the creation of the `Request`.
     CreationIoError(IoError),
+
+    /// The client sent a `Content-Length` header whose value is not a valid length.
+    InvalidContentLength,
 }
 
 impl From<IoError> for RequestCreationError {
@@ -191,10 +194,24 @@ where
         // header must be ignored (RFC2616 #4.4)
         None
     } else {
-        headers
+        match headers
             .iter()
             .find(|h: &&Header| h.field.equiv("Content-Length"))
-            .and_then(|h| FromStr::from_str(h.value.as_str()).ok())
+        {
+            None => None,
+            // the value must be a plain decimal number that fits; anything else (sign,
+            // list, garbage, overflow) would let two parsers disagree about the framing
+            Some(h) => {
+                let value = h.value.as_str();
+                if value.is_empty() || !value.bytes().all(|b| b.is_ascii_digit()) {
+                    return Err(RequestCreationError::InvalidContentLength);
+                }
+                match FromStr::from_str(value) {
+                    Ok(len) => Some(len),
+                    Err(_) => return Err(RequestCreationError::InvalidContentLength),
+                }
+            }
+        }
     };
 
     // true if the client sent a `Expect: 100-continue` header
